@@ -338,7 +338,10 @@ getAnother:
 			return MakeHash(nil, "hash", env) // return empty hash
 		case TokenString:
 			// peek ahead past the string to see if we have ':' TokenColonOperator
-			_, _ = parser.ParserPeekNextToken(extra)
+			_, err = parser.ParserPeekNextToken(extra)
+			if err != nil {
+				return SexpNull, err
+			}
 
 			// are we { "name": value }, as in JSON?
 			second := lexer.tokens[extra]
@@ -354,7 +357,12 @@ getAnother:
 
 		case TokenBeginBacktickString:
 			// peek ahead past the string to see if we have ':' TokenColonOperator
-			_, _ = parser.ParserPeekNextToken(extra + 1)
+			_, err = parser.ParserPeekNextToken(extra + 1)
+			if err != nil {
+				// the text ends (or the parse was halted) inside the
+				// look-ahead: there are no second and third tokens
+				return SexpNull, err
+			}
 
 			// are we { `name`: value }, as in JSON but with backtick quoted string this time?
 			second := lexer.tokens[extra]
@@ -588,16 +596,32 @@ func (p *Parser) ParsingIter() iter.Seq[*ParserReply] {
 		// allow ParseExpression to yield when deep
 		// down the stack (half way through a parse)
 		// and we need more input.
-		p.yield = yield
+		//
+		// Once the consumer has stopped listening (yield returned
+		// false: Stop(), or a break out of the range loop) nothing
+		// more may be yielded; the parse in progress unwinds.
+		stopped := false
+		p.yield = func(reply *ParserReply) bool {
+			if stopped {
+				return false
+			}
+			if !yield(reply) {
+				stopped = true
+			}
+			return !stopped
+		}
 
 		var expr Sexp
 		var err error
 		const depth0 int = 0
 		for {
 			expr, err = p.ParseExpression(depth0)
+			if stopped {
+				return
+			}
 			if err != nil || expr == SexpEnd {
 				p.sendMe.Err = err
-				yield(p.sendMe)
+				p.yield(p.sendMe)
 				return
 			}
 			p.sendMe.Expr = append(p.sendMe.Expr, expr)
